@@ -17,7 +17,7 @@ RULE = (
 )
 ASSUMPTIONS = [
     "picosvg-normal source is the reference; shapes are compared with the tolerance of C01",
-    "allowed protrusion of compiled outlines: 1.0 * max(1, sigma(placing transform)) + fixed-point field error",
+    "allowed protrusion of compiled outlines: (0.5 + 0.001 upem) * max(1, sigma(placing transform)) + 0.5 + fixed-point field error",
 ]
 N = {"quick": 160, "thorough": 4000}
 
@@ -137,7 +137,7 @@ def run_case(case):
         # (b) compiled outlines through the paint transforms
         for li, gl in enumerate(got):
             bb = geom.bbox(gl.contours)
-            e = 1.0 * max(1.0, gl.sigma) + gl.err + 0.01
+            e = (0.5 + 0.001 * built.cfg.upem) * max(1.0, gl.sigma) + 0.5 + gl.err + 0.01  # coordinate rounding (+cu2qu) scaled by the placing transform, + rounding of the box itself
             out = max(box[0] - bb[0], box[1] - bb[1], bb[2] - box[2], bb[3] - box[3])
             ratio = out / e
             worst_prot = ratio if worst_prot is None else max(worst_prot, ratio)
